@@ -80,135 +80,206 @@ impl std::fmt::Display for Selector {
 }
 
 impl Selector {
-    fn do_matches(comps: &[SelectorComponent], node: &Handle) -> bool {
-        verif_tick!(SelectorMatch);
-        match comps.first() {
-            None => true,
-            Some(comp) => match comp {
-                SelectorComponent::Class(class) => match &node.data {
-                    Document
-                    | NodeData::Doctype { .. }
-                    | NodeData::Text { .. }
-                    | Comment { .. }
-                    | NodeData::ProcessingInstruction { .. } => false,
-                    Element { attrs, .. } => {
-                        let attrs = attrs.borrow();
-                        for attr in attrs.iter() {
-                            if &attr.name.local == "class" {
-                                for cls in attr.value.split_whitespace() {
-                                    if cls == class {
-                                        return Self::do_matches(&comps[1..], node);
-                                    }
+    /// Does `node` match this one component (which is not a combinator)?
+    fn component_matches(comp: &SelectorComponent, node: &Handle) -> bool {
+        match comp {
+            SelectorComponent::Class(class) => match &node.data {
+                Document
+                | NodeData::Doctype { .. }
+                | NodeData::Text { .. }
+                | Comment { .. }
+                | NodeData::ProcessingInstruction { .. } => false,
+                Element { attrs, .. } => {
+                    let attrs = attrs.borrow();
+                    for attr in attrs.iter() {
+                        if &attr.name.local == "class" {
+                            for cls in attr.value.split_whitespace() {
+                                if cls == class {
+                                    return true;
                                 }
-                            }
-                        }
-                        false
-                    }
-                },
-                SelectorComponent::Hash(hash) => {
-                    if let Element { attrs, .. } = &node.data {
-                        let attrs = attrs.borrow();
-                        for attr in attrs.iter() {
-                            if &attr.name.local == "id" && &*attr.value == hash {
-                                return Self::do_matches(&comps[1..], node);
                             }
                         }
                     }
                     false
-                }
-                SelectorComponent::Element(name) => match &node.data {
-                    Element { name: eltname, .. } if name == eltname.expanded().local.deref() => {
-                        Self::do_matches(&comps[1..], node)
-                    }
-                    _ => false,
-                },
-                SelectorComponent::Star => Self::do_matches(&comps[1..], node),
-                SelectorComponent::CombChild => {
-                    if let Some(parent) = node.get_parent() {
-                        Self::do_matches(&comps[1..], &parent)
-                    } else {
-                        false
-                    }
-                }
-                SelectorComponent::CombDescendant => {
-                    // Split the rest of the selector into the compound
-                    // selector the ancestor itself has to match, and
-                    // whatever comes above that.
-                    let rest = &comps[1..];
-                    let is_combinator = |c: &SelectorComponent| {
-                        matches!(
-                            c,
-                            SelectorComponent::CombChild | SelectorComponent::CombDescendant
-                        )
-                    };
-                    let compound_len = rest
-                        .iter()
-                        .position(is_combinator)
-                        .unwrap_or(rest.len());
-                    let (compound, above) = rest.split_at(compound_len);
-                    // If what comes above is reached by another descendant
-                    // combinator (or is nothing), then it can only get harder
-                    // to match from further up, so the nearest matching
-                    // ancestor decides.  Only a child combinator needs us to
-                    // try the other ancestors.
-                    let nearest_decides =
-                        !matches!(above.first(), Some(SelectorComponent::CombChild));
-                    // Walk up the ancestors in a loop: both recursing per
-                    // ancestor and retrying every ancestor at every level
-                    // blow up on deeply nested documents.
-                    let mut ancestor = node.get_parent();
-                    while let Some(candidate) = ancestor {
-                        if Self::do_matches(compound, &candidate) {
-                            let matched = Self::do_matches(above, &candidate);
-                            if matched || nearest_decides {
-                                return matched;
-                            }
-                        }
-                        ancestor = candidate.get_parent();
-                    }
-                    false
-                }
-                SelectorComponent::NthChild { a, b, sel } => {
-                    verif_tick!(ProbeNthChild);
-                    let parent = if let Some(parent) = node.get_parent() {
-                        parent
-                    } else {
-                        return false;
-                    };
-                    let mut idx = 0i32;
-                    for child in parent.children.borrow().iter() {
-                        if let Element { .. } = child.data {
-                            if sel.matches(child) {
-                                idx += 1;
-                                if Rc::ptr_eq(child, node) {
-                                    break;
-                                }
-                            } else if Rc::ptr_eq(child, node) {
-                                return false;
-                            }
-                        }
-                    }
-                    if idx == 0 {
-                        // The child wasn't found(?)
-                        return false;
-                    }
-                    /* The selector matches if idx == a*n + b, where
-                     * n >= 0
-                     */
-                    // (in i64, as a and b can be anywhere in the i32 range)
-                    let (a, b) = (*a as i64, *b as i64);
-                    let idx_offset = idx as i64 - b;
-                    if a == 0 {
-                        return idx_offset == 0 && Self::do_matches(&comps[1..], node);
-                    }
-                    if (idx_offset % a) != 0 {
-                        // Not a multiple
-                        return false;
-                    }
-                    let n = idx_offset / a;
-                    n >= 0 && Self::do_matches(&comps[1..], node)
                 }
             },
+            SelectorComponent::Hash(hash) => {
+                if let Element { attrs, .. } = &node.data {
+                    let attrs = attrs.borrow();
+                    for attr in attrs.iter() {
+                        if &attr.name.local == "id" && &*attr.value == hash {
+                            return true;
+                        }
+                    }
+                }
+                false
+            }
+            SelectorComponent::Element(name) => matches!(
+                &node.data,
+                Element { name: eltname, .. } if name == eltname.expanded().local.deref()
+            ),
+            SelectorComponent::Star => true,
+            SelectorComponent::NthChild { a, b, sel } => {
+                verif_tick!(ProbeNthChild);
+                let parent = if let Some(parent) = node.get_parent() {
+                    parent
+                } else {
+                    return false;
+                };
+                let mut idx = 0i32;
+                for child in parent.children.borrow().iter() {
+                    if let Element { .. } = child.data {
+                        if sel.matches(child) {
+                            idx += 1;
+                            if Rc::ptr_eq(child, node) {
+                                break;
+                            }
+                        } else if Rc::ptr_eq(child, node) {
+                            return false;
+                        }
+                    }
+                }
+                if idx == 0 {
+                    // The child wasn't found(?)
+                    return false;
+                }
+                /* The selector matches if idx == a*n + b, where
+                 * n >= 0
+                 */
+                // (in i64, as a and b can be anywhere in the i32 range)
+                let (a, b) = (*a as i64, *b as i64);
+                let idx_offset = idx as i64 - b;
+                if a == 0 {
+                    return idx_offset == 0;
+                }
+                if (idx_offset % a) != 0 {
+                    // Not a multiple
+                    return false;
+                }
+                let n = idx_offset / a;
+                n >= 0
+            }
+            SelectorComponent::CombChild | SelectorComponent::CombDescendant => false,
+        }
+    }
+
+    /// Does `node` match every component of `compound` (which contains no
+    /// combinators)?
+    fn compound_matches(compound: &[SelectorComponent], node: &Handle) -> bool {
+        for comp in compound {
+            if !Self::component_matches(comp, node) {
+                return false;
+            }
+        }
+        true
+    }
+
+    /// The nearest of `start` and its ancestors which matches every
+    /// component of `compound` (which contains no combinators).
+    fn nearest_matching(compound: &[SelectorComponent], start: Option<Handle>) -> Option<Handle> {
+        let mut ancestor = start;
+        while let Some(candidate) = ancestor {
+            if Self::compound_matches(compound, &candidate) {
+                return Some(candidate);
+            }
+            ancestor = candidate.get_parent();
+        }
+        None
+    }
+
+    // Selectors can be as long as the stylesheet and documents as deep as
+    // their length allows, so this neither recurses per component nor per
+    // ancestor; the choices still open are kept in a vector instead.
+    fn do_matches(comps: &[SelectorComponent], node: &Handle) -> bool {
+        // Descendant combinators whose nearest matching ancestor may turn
+        // out to be the wrong one: the compound the ancestor has to match,
+        // what comes above it, and the next ancestor to try.
+        type Alternative<'a> = (
+            &'a [SelectorComponent],
+            &'a [SelectorComponent],
+            Option<Handle>,
+        );
+        let mut alternatives: Vec<Alternative> = Vec::new();
+        let mut comps = comps;
+        let mut node = node.clone();
+        loop {
+            // Go as far as possible without making a choice.
+            let matched = loop {
+                verif_tick!(SelectorMatch);
+                let comp = match comps.first() {
+                    None => break true,
+                    Some(comp) => comp,
+                };
+                match comp {
+                    SelectorComponent::CombChild => {
+                        if let Some(parent) = node.get_parent() {
+                            node = parent;
+                            comps = &comps[1..];
+                        } else {
+                            break false;
+                        }
+                    }
+                    SelectorComponent::CombDescendant => {
+                        // Split the rest of the selector into the compound
+                        // selector the ancestor itself has to match, and
+                        // whatever comes above that.
+                        let rest = &comps[1..];
+                        let is_combinator = |c: &SelectorComponent| {
+                            matches!(
+                                c,
+                                SelectorComponent::CombChild | SelectorComponent::CombDescendant
+                            )
+                        };
+                        let compound_len = rest
+                            .iter()
+                            .position(is_combinator)
+                            .unwrap_or(rest.len());
+                        let (compound, above) = rest.split_at(compound_len);
+                        // If what comes above is reached by another descendant
+                        // combinator (or is nothing), then it can only get harder
+                        // to match from further up, so the nearest matching
+                        // ancestor decides.  Only a child combinator needs us to
+                        // try the other ancestors.
+                        let nearest_decides =
+                            !matches!(above.first(), Some(SelectorComponent::CombChild));
+                        match Self::nearest_matching(compound, node.get_parent()) {
+                            Some(candidate) => {
+                                if !nearest_decides {
+                                    alternatives.push((compound, above, candidate.get_parent()));
+                                }
+                                node = candidate;
+                                comps = above;
+                            }
+                            None => break false,
+                        }
+                    }
+                    _ => {
+                        if Self::component_matches(comp, &node) {
+                            comps = &comps[1..];
+                        } else {
+                            break false;
+                        }
+                    }
+                }
+            };
+            if matched {
+                return true;
+            }
+            // Go back to the most recent choice which has another ancestor
+            // to offer.
+            loop {
+                match alternatives.pop() {
+                    None => return false,
+                    Some((compound, above, start)) => {
+                        if let Some(candidate) = Self::nearest_matching(compound, start) {
+                            alternatives.push((compound, above, candidate.get_parent()));
+                            node = candidate;
+                            comps = above;
+                            break;
+                        }
+                    }
+                }
+            }
         }
     }
     fn matches(&self, node: &Handle) -> bool {
@@ -220,19 +291,19 @@ impl Selector {
         for component in &self.components {
             match component {
                 SelectorComponent::Class(_) => {
-                    result.class += 1;
+                    result.class = result.class.saturating_add(1);
                 }
                 SelectorComponent::Element(_) => {
-                    result.typ += 1;
+                    result.typ = result.typ.saturating_add(1);
                 }
                 SelectorComponent::Hash(_) => {
-                    result.id += 1;
+                    result.id = result.id.saturating_add(1);
                 }
                 SelectorComponent::Star => {}
                 SelectorComponent::CombChild => {}
                 SelectorComponent::CombDescendant => {}
                 SelectorComponent::NthChild { sel, .. } => {
-                    result.class += 1;
+                    result.class = result.class.saturating_add(1);
                     result += &sel.specificity();
                 }
             }
